@@ -9,6 +9,7 @@ CONSTANTS
   Ops = {}
   MaxInFlight = 0
   AuctionImpl = "intended"
+  Resolution = "locked"
   MaxRounds = 0
   ScenLen = 9
   MaxSignFail = 1
